@@ -92,8 +92,9 @@ pub fn parse_dxtn<'a>(
         }
 
         let image_bytes = &original_input[offset as usize..(offset + size) as usize];
-        let n = blp_header.mipmap_pixels(i);
-        let blocks_n = ((n as f32) / 16.0).ceil() as usize;
+        // DXT stores 4x4 blocks: a dimension that is not a multiple of 4 is rounded up
+        let (width, height) = blp_header.mipmap_size(i);
+        let blocks_n = (width as usize).div_ceil(4) * (height as usize).div_ceil(4);
         let mut blocks_size = blocks_n * dxtn.block_size();
         trace!("Dxtn blocks count: {blocks_n}");
         trace!("Dxtn format: {dxtn:?}, block size: {}", dxtn.block_size());
